@@ -23,6 +23,7 @@ import os
 import random
 import re
 import subprocess
+import threading
 import sys
 import time
 
@@ -35,12 +36,20 @@ POISON = 170
 TIERS = {
     # files x steps of random history, H=5 model-checking budget (s)
     "quick": dict(hist_files=16, hist_steps=4000, mc5_timeout=0, sample_mod=1),
-    "thorough": dict(hist_files=48, hist_steps=24000, mc5_timeout=780, sample_mod=350),
+    "thorough": dict(hist_files=64, hist_steps=30000, mc5_timeout=780, sample_mod=350),
 }
 
 
 # ------------------------------------------------------------------ harness
+_build_lock = threading.Lock()
+
+
 def harness():
+    with _build_lock:
+        return _harness()
+
+
+def _harness():
     """The harness binary for /repo's current working tree (content-hashed by
     vlib).  The build cache is shared and pruned by concurrent checks, so a
     build that loses its directory half-way is simply repeated."""
@@ -50,11 +59,7 @@ def harness():
             return vlib.build_harness('ivh_avl', ['ivh_avl.c'], 'plain')
         except (vlib.MachineryError, OSError) as e:
             err = e
-            if isinstance(e, vlib.MachineryError) and "No such file" not in str(e) and \
-                    vlib.tree_hash() == getattr(harness, "failed", None):
-                break                                   # the same tree failed twice: a real build error
-            harness.failed = vlib.tree_hash()
-            time.sleep(0.5)
+            time.sleep(1.0)
     raise vlib.MachineryError("cannot build ivh_avl: %s" % err)
 
 
@@ -72,6 +77,7 @@ def run_harness(script_path, trace_path, timeout=600):
             rc, out = -14, "driver timeout"
         except OSError as e:                            # binary pruned between build and exec
             rc, out = 2, str(e)
+            time.sleep(1.0)
             continue
         break
     if rc not in (0,) and rc >= 0:
@@ -99,6 +105,8 @@ def t_line(st):
 
 
 def op_line(op):
+    if op is None:
+        return "# (no call: walks over the constructed tree)"
     return "I %d %d" % (op["n"], op["key"]) if op["kind"] == "ins" else "D %d" % op["n"]
 
 
@@ -233,7 +241,7 @@ def py_judge(pre, S, op, ret, post, fwd, bwd):
 
 def py_validate(trace_path):
     """Judge a whole trace in Python: {line: sigs} with the same
-    skip-after-violation rule as TraceAvl."""
+    skip-after-structural-violation rule as TraceAvl."""
     res = {}
     cur, members, judging = None, set(), False
     with open(trace_path) as f:
@@ -245,7 +253,9 @@ def py_validate(trace_path):
                 if seq is not None:
                     members = set(seq)
                     sv, _ = py_struct_viols(cur, members)
-                    judging = not sv and e["fwd"] == seq and e["bwd"] == seq[::-1]
+                    judging = not sv
+                    if judging and not (e["fwd"] == seq and e["bwd"] == seq[::-1]):
+                        res[ln] = {"traversal"}
                 else:
                     members, judging = set(), False
                 continue
@@ -260,7 +270,7 @@ def py_validate(trace_path):
                 v, members = py_judge(pre, members, op, e["ret"], post, e["fwd"], e["bwd"])
                 if v:
                     res[ln] = v
-                    judging = False
+                    judging = not (v - {"dup", "traversal"})
             cur = post
     return res
 
@@ -298,6 +308,8 @@ def pre_and_op_at(trace_path, ln):
         for i, line in enumerate(f, 1):
             e = json.loads(line)
             if i == ln:
+                if e["op"] == "set":                      # the real walks over a constructed tree
+                    return struct_of(e, list(e["keys"])), None
                 op = {"kind": e["op"], "n": e["n"], "key": e["key"]}
                 return struct_of(prev, list(keys)), op
             if e["op"] == "set":
@@ -361,7 +373,8 @@ class Batch:
                 for i, line in enumerate(f, 1):
                     if line.startswith('{"op":"set"'):
                         last_set = i
-            if not any(ln > last_set for ln in res["viols"]):     # not a consequence of an earlier violation
+            # not a consequence of an earlier structural violation (the tree was still legal)
+            if not any(ln > last_set and (sg - {"dup", "traversal"}) for ln, sg in res["viols"].items()):
                 cmd = nth_command(script_path, nlines + 1)
                 if cmd is None or nlines == 0:
                     raise vlib.MachineryError("harness died outside a command: %s %s" % (script_path, status))
@@ -378,6 +391,13 @@ class Batch:
                     raise vlib.MachineryError("harness died in a set command: %s" % script_path)
         if hashes:
             res["hashes"] = nontrivial_hashes(trace_path)
+            with open(trace_path) as f:
+                for i, line in enumerate(f):
+                    if i == 40:
+                        res["sample_line"] = line.strip()
+                        break
+            if not res["cands"]:
+                os.unlink(trace_path)          # histories are big; keep only what a replay needs
         return res
 
     def run(self, jobs, nproc=None):
@@ -595,17 +615,14 @@ def run(pid, tier, seed, replay=None):
             sp = sc.path("hist", "h%d.scr" % i)
             with open(sp, "w") as f:
                 f.write(gen_history(random.Random(rnd.getrandbits(48)), nkeys, cfgt["hist_steps"]))
-            hjobs.append((sp, sc.path("hist", "h%d.ndjson" % i), i == 0, True))
+            hjobs.append((sp, sc.path("hist", "h%d.ndjson" % i), True, True))
         lines_before = batch.lines
         nproc = vlib.NCPU if not bg else max(4, vlib.NCPU // 2)
-        batch.run(hjobs, nproc)
+        hres = batch.run(hjobs, nproc)
         hist_steps = batch.lines - lines_before - len(hjobs)
         rep.sample("history (script for the real code): " + " ; ".join(vlib.read(hjobs[0][0]).splitlines()[:14]) + " ...")
-        with open(hjobs[0][1]) as f:
-            for i, line in enumerate(f):
-                if i == 40:
-                    rep.sample("trace line 41 (real code): " + line.strip())
-                    break
+        if hres and hres[0].get("sample_line"):
+            rep.sample("trace line 41 (real code): " + hres[0]["sample_line"])
 
         # ---- 4. thorough: the H = 5 exploration and its sampled triples
         exhaustive5 = False
